@@ -407,6 +407,9 @@ func init() {
 					d := days[i]
 					c09Bulk(r, c09ValuesFor(d[0], d[1], d[2]))
 				}},
+				{Name: "neighbour-offsets-direct", N: 1, Note: "DateTimes in 11 further offsets (several within one hour of each other and of the grid's offsets) x 26 units x 24 amounts x 2 ops, direct Add/Sub in one process", Run: func(i int, r *core.Rec) {
+					c09Bulk(r, c09NeighbourOffsetValues())
+				}},
 				{Name: "time-direct", N: len(timeVals), Note: "Time at 4 precisions x 3 times of day x 26 units x 18 amounts x 2 ops", Run: func(i int, r *core.Rec) {
 					c09Bulk(r, timeVals[i:i+1])
 				}},
@@ -540,7 +543,28 @@ func c09EvalValues() []c09Value {
 	vs := c09ValuesFor(2020, 1, 1)
 	vs = append(vs, c09ValuesFor(2020, 1, 31)...)
 	vs = append(vs, c09TimeValues()...)
+	vs = append(vs, c09NeighbourOffsetValues()...)
 	return vs
+}
+
+// offsets that share their hour with another offset of the grid or with each other (+05:30 / +05:00 / +05:45,
+// -11:00 / -11:30, -03:00 / -03:30), sub-hour offsets around UTC and the extremes
+var c09NeighbourOffsets = []string{"+05:00", "+05:45", "-11:30", "-03:00", "-03:30", "+00:30", "-00:30", "+14:00", "-12:00", "+09:30", "+09:00"}
+
+func c09NeighbourOffsetValues() []c09Value {
+	var out []c09Value
+	for _, day := range []string{"2020-01-31", "2020-03-30"} {
+		for _, o := range c09NeighbourOffsets {
+			for _, f := range []struct{ text, class string }{{day + "T10:00:00" + o, "DateTime.second.neighbour-offset"}, {day + "T23:45" + o, "DateTime.minute.neighbour-offset"}, {day + "T00:15:30.250" + o, "DateTime.ms.neighbour-offset"}} {
+				r, ok := lib.ParseRefT("DateTime", f.text)
+				if !ok {
+					panic("c09 neighbour offset value " + f.text)
+				}
+				out = append(out, c09Value{"DateTime", f.text, r, f.class})
+			}
+		}
+	}
+	return out
 }
 
 // c09Bulk runs the full units x amounts x ops grid on the values by direct calls.
